@@ -173,6 +173,35 @@ def run(tier, seed):
           ser.MAX_CHUNK_SIZE = default_chunk
         if _same_tree(snap, sd2):
           fails.append(dict(inputs=dict(inp, threshold=3), observed='msgpack_serialize(in_place=False) modified the state dict: ' + str(_same_tree(snap, sd2))[:200], violated='input-unmodified'))
+    # python scalars incl. complex numbers with signed zeros and non-finite parts: restored with identical bytes
+    import struct as _struct
+    import jax.numpy as _jnp
+
+    def _bits(v):
+      return _struct.pack('dd', v.real, v.imag) if isinstance(v, complex) else (_struct.pack('d', v) if isinstance(v, float) else repr(v).encode())
+    specials = [0.0, -0.0, float('inf'), float('-inf'), float('nan'), 1.5]
+    scalars = [complex(a, b) for a in specials for b in specials] + [-0.0, float('nan'), float('-inf'), 7, True, None, 'txt', b'raw']
+    cases += 1
+    tree_s = {'vals': {str(i): v for i, v in enumerate(scalars)}, 'lst': [complex(-0.0, float('inf')), (complex(float('nan'), -0.0),)]}
+    back_s = ser.from_bytes(tree_s, ser.to_bytes(tree_s))
+    bad = [(k, v, back_s['vals'][k]) for k, v in tree_s['vals'].items() if type(back_s['vals'][k]) is not type(v) or (v is not None and _bits(back_s['vals'][k]) != _bits(v))]
+    bad += [('lst', a, b) for a, b in ((tree_s['lst'][0], back_s['lst'][0]), (tree_s['lst'][1][0], back_s['lst'][1][0])) if _bits(a) != _bits(b)]
+    if bad:
+      fails.append(dict(inputs=dict(container='dict / list of python scalars', leaf=repr(bad[0][1])), observed=f'restored as {bad[0][2]!r} (not the same bytes)', violated='bytes-roundtrip'))
+    # msgpack_serialize without in_place leaves the caller's tree alone: same leaf objects, same types (jax arrays stay jax arrays)
+    cases += 1
+    jtree = {'a': _jnp.arange(3.0), 'b': {'c': _jnp.ones((2, 2)), 'n': np.arange(4)}, 'l': [_jnp.zeros(2)]}
+    ids_before = [(id(x), type(x).__name__) for x in jax.tree_util.tree_leaves(jtree)]
+    for th in (default_chunk, 8):
+      ser.MAX_CHUNK_SIZE = th
+      try:
+        ser.msgpack_serialize(jtree)
+      finally:
+        ser.MAX_CHUNK_SIZE = default_chunk
+      ids_after = [(id(x), type(x).__name__) for x in jax.tree_util.tree_leaves(jtree)]
+      if ids_after != ids_before:
+        fails.append(dict(inputs=dict(fn='msgpack_serialize', in_place=False, threshold=th), observed=f'the leaves of the tree passed in were replaced: {[t for _, t in ids_before]} -> {[t for _, t in ids_after]}', violated='input-unmodified'))
+        break
     # sequences of 12 entries restored from a state dict whose keys come back in another order ('0','1','10','11','2',...)
     for seq in ([np.full((2,), i, np.float32) for i in range(12)], tuple(np.asarray(i * 1.5) for i in range(13))):
       cases += 1
